@@ -252,6 +252,25 @@ func runC05(o Opts) error {
 				}
 				prevOff = off
 			}
+			// and at the zone's own wall-clock readings within 100 minutes of its last four changes before 2025
+			found := 0
+			t := time.Date(2024, 12, 31, 0, 0, 0, 0, time.UTC)
+			_, o1 := t.In(loc).Zone()
+			for ; t.Year() >= 2000 && found < 4; t = t.Add(-15 * time.Minute) {
+				_, o := t.In(loc).Zone()
+				if o == o1 {
+					continue
+				}
+				o1 = o
+				found++
+				for k := -7; k <= 6; k++ {
+					w := t.Add(time.Duration(k)*15*time.Minute + 22*time.Minute + 30*time.Second).In(loc)
+					n := []string{"GetStatusResponse", "GetTimeResponse", "GetEventResponse", "Event"}[(k+7)%4]
+					if _, ok := msgTypes[n]; ok {
+						c05at(s, r, n, msgTypes[n], z, w.Year(), int(w.Month()), w.Day(), w.Hour(), w.Minute(), w.Second(), "msg/near-offset-change")
+					}
+				}
+			}
 		}
 		// round instants (as constants in code tend to be) seen from this zone: 1970-01-01, 2000-01-01, 2001-09-09 01:46:40,
 		// 2038-01-19 03:14:07 UTC
